@@ -1,12 +1,12 @@
 package main
 
 import (
-	"github.com/libsv/go-bt/v2/bscript"
 	"bytes"
 	"encoding/hex"
 	"encoding/json"
 	"errors"
 	"fmt"
+	"github.com/libsv/go-bt/v2/bscript"
 	"os"
 	"strconv"
 	"strings"
@@ -140,8 +140,31 @@ func implPreShared(desc string, idx uint32, flag sighash.Flag, legacy bool) stri
 	return implPre(tx, idx, flag, legacy)
 }
 
+// implPreNilSlices: the same transaction with every empty script held as a nil slice behind its pointer
+// (new(bscript.Script), bscript.NewFromBytes(nil)) instead of an empty non-nil one: an empty script is an empty script
+func implPreNilSlices(desc string, idx uint32, flag sighash.Flag, legacy bool) string {
+	tx := parseDesc(desc)
+	for _, in := range tx.Inputs {
+		if in.PreviousTxScript != nil && len(*in.PreviousTxScript) == 0 {
+			in.PreviousTxScript = new(bscript.Script)
+		}
+		if in.UnlockingScript != nil && len(*in.UnlockingScript) == 0 {
+			in.UnlockingScript = bscript.NewFromBytes(nil)
+		}
+	}
+	for _, o := range tx.Outputs {
+		if o.LockingScript != nil && len(*o.LockingScript) == 0 {
+			o.LockingScript = new(bscript.Script)
+		}
+	}
+	return implPre(tx, idx, flag, legacy)
+}
+
 func implPreBoth(desc string, idx uint32, flag sighash.Flag, legacy bool) string {
 	fresh := implPre(parseDesc(desc), idx, flag, legacy)
+	if h := implPreNilSlices(desc, idx, flag, legacy); h != fresh {
+		return h
+	}
 	if h := implPreWithHistory(desc, idx, flag, legacy); h != fresh {
 		return h
 	}
